@@ -35,12 +35,20 @@ def cxx_show(p, i):
         return 'printf("%%d", (int)%s);' % d
     if p.fam == "char":
         return 'printf("%%d", (int)%s);' % n
+    if p.fam == "fnptr":
+        return 'printf("%%d", %s(3, 0.5));' % n
+    if p.fam == "cstrarr":
+        return 'printf("[%%s|%%s]", %s[0], %s[1]);' % (n, n)
+    if p.fam == "voidarr":
+        return 'printf("%%d", *(int *)%s[0]);' % n
     if p.fam == "cstr":
         return 'printf("[%%s]", %s);' % n
     if p.fam == "string":
         return 'printf("[%%s]", %s.c_str());' % d
     if p.fam == "enum":
-        return 'printf("%%d", (int)%s);' % n
+        if p.mode != "val" and p.intent == "out":
+            return 'printf("_");'
+        return 'printf("%%d", (int)%s);' % d
     if p.fam == "struct":
         return 'printf("{%%d,", %s.x); sh_d(%s.y); printf("}");' % (d, d)
     if p.fam == "class":
@@ -59,6 +67,8 @@ def cxx_set(f, p):
         return "%s = %s;" % (d, lit(p.t, c))
     if p.fam == "bool":
         return "%s = %s;" % (d, "true" if c else "false")
+    if p.fam == "enum":
+        return "%s = %s;" % (d, c[0])
     if p.fam == "string":
         return '%s = "%s";' % (d, c)
     if p.fam == "struct":
@@ -150,6 +160,14 @@ def subject_header(spec):
         for f in spec.funcs:
             if f.cls == c:
                 out.append(cxx_function(f, True))
+        out.append("};")
+    if spec.tclass:
+        c = spec.tclass[0]
+        out.append("template<typename T> class %s {\npublic:\n    int id;" % c)
+        out.append("    static int &last() { static int v = -1; return v; }")
+        out.append('    static void operator delete(void *p) { std::printf("DEL %d\\n", last()); ::operator delete(p); }')
+        for f in spec.tfuncs:
+            out.append(cxx_function(f, True))
         out.append("};")
     for f in spec.funcs:
         if f.cls is None and f.ns is None:
@@ -248,6 +266,23 @@ def emit_call(E, f, cname, ndef, tt, rnd, self_obj=None):
             vals[p.name] = val
             args.append("(char)%d" % val)
             exp_in.append("%d" % val)
+        elif p.fam == "fnptr":
+            which = (rnd + i) % 2
+            vals[p.name] = "cbk%d" % which
+            args.append("cbk%d" % which)
+            exp_in.append("%d" % (3 * 2 + 1 if which == 0 else 3 - 5))
+        elif p.fam == "cstrarr":
+            a, b = pick(STRS, rnd, i), pick(STRS, rnd, i + 1)
+            vals[p.name] = [a, b]
+            pre.append('char s0%s[64] = "%s"; char s1%s[64] = "%s"; char *%s[2]; %s[0] = s0%s; %s[1] = s1%s;' % (v, a, v, b, v, v, v, v, v))
+            args.append(v)
+            exp_in.append("[%s|%s]" % (a, b))
+        elif p.fam == "voidarr":
+            val = pick(INT_T["int"], rnd, i)
+            vals[p.name] = val
+            pre.append("int x%s = %s; void *%s[1]; %s[0] = &x%s;" % (v, lit("int", val), v, v, v))
+            args.append(v)
+            exp_in.append("%d" % val)
         elif p.fam == "cstr":
             val = pick(STRS, rnd, i)
             vals[p.name] = val
@@ -264,8 +299,15 @@ def emit_call(E, f, cname, ndef, tt, rnd, self_obj=None):
         elif p.fam == "enum":
             val = pick([m[1] for m in ENUM], rnd, i)
             vals[p.name] = val
-            args.append("%d" % val)
-            exp_in.append("%d" % val)
+            if p.mode == "val":
+                args.append("%d" % val)
+                exp_in.append("%d" % val)
+            else:
+                pre.append("int %s = %d;" % (v, val))
+                args.append("&" + v)
+                exp_in.append("_" if p.intent == "out" else "%d" % val)
+                after.append((i, 'printf("%%d", %s);' % v))
+                exp_out.append((i, "%d" % (val if p.intent == "in" else f.consts[p.name][1])))
         elif p.fam == "struct":
             x, y = pick([0, -7, 2147483647], rnd, i), pick([0.5, -1.25, 1e300], rnd, i)
             vals[p.name] = (x, y)
@@ -363,6 +405,7 @@ def emit_call(E, f, cname, ndef, tt, rnd, self_obj=None):
 def build_driver(spec, headers, rounds):
     E = Emit(spec)
     P = spec.c_prefix()
+    E.c += ["static int cbk0(int x, double y) { (void)y; return x * 2 + 1; }", "static int cbk1(int x, double y) { (void)y; return x - 5; }"]
     E.c += ["static void sh_d(double v) { unsigned long long b; memcpy(&b, &v, 8); printf(\"%016llx\", b); }", "int main(void) {",
             "setvbuf(stdout, NULL, _IONBF, 0);"]
     # objects of every class: a (id 11) is passed as argument, b (id 22) is `this`
@@ -400,9 +443,34 @@ def build_driver(spec, headers, rounds):
         cname = spec.c_names(dtor)[0][0]
         for tag, idv in zip("ba", (IDS[1], IDS[0])):
             obj = "k_%s_%s" % (c, tag)
-            E.c += ['%s(&%s); printf("R %d ret=%%d\\n", (int)(%s.addr == NULL));' % (cname, obj, dtor.fid, obj)]
+            E.c += ['{ int idt = %s.idtor; %s(&%s); printf("R %d ret=%%d\\n", (int)(%s.addr == NULL && %s.idtor == idt)); }' % (
+                obj, cname, obj, dtor.fid, obj, obj)]
             E.exp += ["DEL %d" % idv, "R %d ret=1" % dtor.fid]
             E.ctx += [{"function": "%s (%s)" % (spec.fdecl(dtor)["decl"], cname), "values": {"this": idv}, "func": dtor}] * 2
+    for cname_cls, t, fs in spec.tclass_instances():
+        cap = E.cap_t(cname_cls)
+        by = {f.name if f.kind == "func" else f.kind: f for f in fs}
+        ctor, dtor, ident = by["ctor"], by["dtor"], by["ident"]
+        obj = "k_%s_b" % cname_cls
+        val = {"int": 42, "long": 77, "double": 1.5}[t]
+        tl = ("L" if t == "long" else "") + rep(t, val)
+        n_ctor, n_dtor, n_ident = spec.c_names(ctor)[0][0], spec.c_names(dtor)[0][0], spec.c_names(ident)[0][0]
+        E.c += ["%s %s; { %s *pc = %s(%d, %s, &%s); printf(\"R %d ret=%%d\\n\", (int)(pc == &%s)); }" % (
+            cap, obj, cap, n_ctor, IDS[1], lit(t, val), obj, ctor.fid, obj)]
+        E.exp += ["C %d this=new p0=%d p1=%s" % (ctor.fid, IDS[1], tl), "R %d ret=1" % ctor.fid]
+        E.ctx += [{"function": "%s<%s>::ctor (%s)" % (spec.tclass[0], t, n_ctor), "values": {"a0": IDS[1], "a1": val}, "func": ctor}] * 2
+        E.c += ['printf("R %d ret=%%d\\n", %s(&%s));' % (ident.fid, n_ident, obj)]
+        E.exp += ["C %d this=%d" % (ident.fid, IDS[1]), "R %d ret=%d" % (ident.fid, IDS[1])]
+        E.ctx += [{"function": "%s<%s>::ident (%s)" % (spec.tclass[0], t, n_ident), "values": {}, "func": ident}] * 2
+        for f in fs:
+            if f.kind != "func" or f.name == "ident":
+                continue
+            for rnd in range(rounds):
+                emit_call(E, f, spec.c_names(f)[0][0], 0, (t,), rnd, self_obj=(obj, IDS[1]))
+        E.c += ['{ int idt = %s.idtor; %s(&%s); printf("R %d ret=%%d\\n", (int)(%s.addr == NULL && %s.idtor == idt)); }' % (
+            obj, n_dtor, obj, dtor.fid, obj, obj)]
+        E.exp += ["DEL %d" % IDS[1], "R %d ret=1" % dtor.fid]
+        E.ctx += [{"function": "%s<%s>::dtor (%s)" % (spec.tclass[0], t, n_dtor), "values": {"this": IDS[1]}, "func": dtor}] * 2
     E.c += ["return 0;", "}"]
     head = ["#include <stdio.h>", "#include <string.h>", "#include <stdbool.h>"] + ['#include "%s"' % h for h in headers]
     return "\n".join(head + E.c) + "\n", E
